@@ -768,10 +768,10 @@ func stack() string {
 	lines := strings.Split(string(buf[:n]), "\n")
 	var keep []string
 	for _, l := range lines {
-		if strings.Contains(l, "/verif/engine/") && !strings.Contains(l, "explore.go") {
+		if strings.Contains(l, "/verif/engine/") && !strings.Contains(l, "explore.go:") && !strings.Contains(l, "intrinsics.go:20") && !strings.Contains(l, "exec.go:24") {
 			keep = append(keep, strings.TrimSpace(l))
 		}
-		if len(keep) >= 6 {
+		if len(keep) >= 10 {
 			break
 		}
 	}
